@@ -208,7 +208,7 @@ NOT_APPLICABLE = {}
 
 PROPS = {
     "C01": {
-        "modules": ["RsddModel.Props.C01"],
+        "modules": ["RsddModel.Props.C01", "RsddModel.Props.TieIte"],
         "streams": [BDD_STREAM],
         "rule": BDD_RULE,
         "trusted": ["modelled not verified: unique table (C02), FxHasher (arbitrary function), unsafe aliasing of compute_table, std HashMap memo of cond_with_alloc (association list)"],
@@ -219,6 +219,8 @@ PROPS = {
                       "lawful cache and every fuel; the model is tied to the Rust by differential runs (model pool == implementation pool "
                       "structurally, implementation truth tables == spec).",
         "level_note": "Trusted: Lean kernel; axioms propext/Classical.choice/Quot.sound; harness+driver+check.py; the correspondence is a sample. "
+                      "The four stages of Ite::new are regenerated arm by arm from src/builder/cache/ite.rs on every run (tools/gen_source_model.py) "
+                      "and proved equal to the model's (TieIte.*). "
                       "Modelled not verified: unique table (C02), FxHasher, unsafe aliasing, HashMap memo. Partial correctness (returned results).",
         "explanation": "run_refines/step_correct: every pool entry of the model builder denotes the function the spec assigns, "
                        "for every lawful cache, injective level map and fuel; tied to the code by the bdd stream (model = implementation "
@@ -255,7 +257,7 @@ PROPS = {
                        "parameters, hence builder results are cache-independent.",
     },
     "C13": {
-        "modules": ["RsddModel.Props.C13", "RsddModel.Props.Tie"],
+        "modules": ["RsddModel.Props.C13", "RsddModel.Props.Tie", "RsddModel.Props.TieFF"],
         "streams": [RING_STREAM],
         "rule": "triples (a,b,c) per weight type: finite fields for all 7 exported primes with boundary residues {0,1,2,P/2,P/2+1,P-2,P-1}, "
                 "small and random residues; reals/EU/complex on dyadic k/8 (exact in f64); Booleans exhaustively; truncated polynomials over "
@@ -267,7 +269,7 @@ PROPS = {
                       "finite field on the carrier {v < P}, truncated polynomials on well-formed values), finite-field ops = integer arithmetic mod P with "
                       "no u128 overflow for every exported prime (list regenerated from the source and re-decided by the kernel), subtraction inverts "
                       "addition, lattice laws and order compatibility of join/meet/choose; negative theorems for the pinned sub/mul.",
-        "level_note": "Trusted: Lean kernel; allowed axioms; harness+driver. f64 modelled by Rat (exact on the dyadic domain the property names).",
+        "level_note": "Trusted: Lean kernel; allowed axioms; harness+driver. FiniteField::{new,negate,add,sub} are regenerated from the source text and proved equal to the model's (TieFF.*); mul (a loop) is tied by the ring stream only. f64 modelled by Rat (exact on the dyadic domain the property names).",
         "explanation": "C13.* + Tie.* theorems; ring stream: implementation vs exact arithmetic, vs the mirrored model, and the laws on the implementation's own outputs.",
     },
     "C07": {
@@ -301,7 +303,7 @@ PROPS = {
         "explanation": "C08.* theorems; wmc stream checks function, paths, counts and exact equality with the mirrored smooth.",
     },
     "C03": {
-        "modules": ["RsddModel.Props.C03"],
+        "modules": ["RsddModel.Props.C03", "RsddModel.Props.TieIte"],
         "streams": [SDD_STREAM],
         "rule": "operation programs over CompressionSddBuilder: vtrees right-linear / left-linear / balanced / random splits over identity or shuffled "
                 "labels, compression on (3/4) and off (1/4), hooked unique-table capacity 4/8/default; non-trivial = a result has a decision node "
@@ -312,7 +314,7 @@ PROPS = {
                       "operation returns a diagram denoting the specified function (and_correct, or_correct, condition_correct, ite_correct, "
                       "exists_correct, compose_correct) and any operation sequence refines the specification pool (run_refines, run_stable); tied to "
                       "the code by the sdd stream (canonical prints equal with compression on, truth tables otherwise).",
-        "level_note": "Trusted: Lean kernel; allowed axioms; harness+driver. Modelled: unique tables, HashMap caches, lca. Partial correctness.",
+        "level_note": "Trusted: Lean kernel; allowed axioms; harness+driver. Ite::new over SDD pointers is regenerated from the source text and proved equal to the model's (TieIte.sdd_*). Modelled: unique tables, HashMap caches, lca. Partial correctness.",
         "explanation": "C03.* theorems; sdd stream: model == implementation (canonical form), implementation == spec truth tables.",
     },
     "C14": {
